@@ -1,5 +1,5 @@
 (* Extraction of the C17 models and monitors.  ExtrOcamlBasic only. *)
-From RsM Require Import Lib.MachInt Model.Headers Model.Codecs Model.CodecsSpec Model.CodecsCheckin Model.CodecsBdx Model.CodecsBle Model.CodecsMdns.
+From RsM Require Import Lib.MachInt Model.Headers Model.Codecs Model.CodecsSpec Model.CodecsCheckin Model.CodecsBdx Model.CodecsBle Model.CodecsMdns Model.CodecsCertExt.
 Require Import ExtrOcamlBasic.
 Extraction Language OCaml.
 Extraction "model.ml"
@@ -26,4 +26,5 @@ Extraction "model.ml"
   mon_adv_rt mon_adv_dec mon_radv_rt
   txt_encode txt_decode txt_scan filter_matches session_params tcp_server comm_txt
   comm_adv_valid op_label comm_label op_label_match comm_label_match parse_hex_u64
-  mon_comm_rt mon_txt_dec dec_print parse_uint.
+  mon_comm_rt mon_txt_dec dec_print parse_uint
+  ku_value eku_value bc_value mon_certext.
